@@ -26,7 +26,7 @@ pub fn def() -> CheckDef {
         runs_quick: 600_000,
         runs_thorough: 15_000_000,
         rule: "twin runs of the real code with identical histories, one twin using the in-place form of every call and the other the buffer-to-buffer form (block/blocks/script calls, padded and async one-shots, apply_keystream forms, core keystream forms, cts forms) into an output buffer pre-filled with a non-zero pattern derived from the data; same fixed backend width on both. All 12 block-mode types, 8 stream aliases, 8 cores, 6 cts types. distinct = distinct (type, block size, cipher, width, per-op (form pair, size class) sequence); non-trivial = >= 1 byte processed",
-        required_probes: &["cts_tail_1", "cts_tail_bs_minus_1", "par_b2b", "padded_b2b", "async_b2b", "stream_b2b", "core_b2b"],
+        required_probes: &["cts_tail_1", "cts_tail_bs_minus_1", "par_b2b", "padded_b2b", "async_b2b", "stream_b2b", "core_b2b", "long_one_shot"],
         r#gen,
         exec,
         components: "real code: all nine crates and cipher's front ends, both twins; stub: block cipher in most runs, real ciphers in the rest; no reference model",
@@ -64,8 +64,14 @@ fn r#gen(rng: &mut Rng, thorough: bool) -> Scn {
             }
             let g = if mode.starts_with("cfb8") { 1 } else { s.bs as u64 };
             match rng.below(3) {
-                0 => s.ops.push(Op::new("padded").n(rng.nbytes(8 * g, g)).ty(rng.below(5) as u8).m(rng.below(2))),
-                1 if mode.starts_with("cfb") => s.ops.push(Op::new("async").n(rng.nbytes(8 * s.bs as u64, s.bs as u64)).m(rng.below(2))),
+                0 => {
+                    let n = if rng.chance(1, 6) { rng.nbytes_long(g) } else { rng.nbytes(8 * g, g) };
+                    s.ops.push(Op::new("padded").n(n).ty(rng.below(5) as u8).m(rng.below(2)))
+                }
+                1 if mode.starts_with("cfb") => {
+                    let n = if rng.chance(1, 6) { rng.nbytes_long(s.bs as u64) } else { rng.nbytes(8 * s.bs as u64, s.bs as u64) };
+                    s.ops.push(Op::new("async").n(n).m(rng.below(2)))
+                }
                 _ => {}
             }
         }
@@ -160,6 +166,10 @@ fn exec(scn: &Scn, ctx: &mut Ctx) -> Verdict {
                             invalid!("one-shot must be last");
                         }
                         let n = op.n as usize;
+                        if n > 1 << 16 {
+                            invalid!("too long");
+                        }
+                        ctx.probe_if(n > 32 * g, "long_one_shot");
                         let inp = scn.bytes(off, n);
                         let cap = n + g + 1;
                         let (ka, kb, pad) = if op.k == "padded" {
